@@ -5,7 +5,7 @@ func init() {
 	th := tierCfg{Runs: 64000, JobSize: 200, BudgetS: 1500}
 	props["C19"] = &propCfg{Engine: "nodesim", Test: "TestC19", Level: "fault_enumeration", Overlay: "pin",
 		Quick: tierCfg{Runs: 1920, JobSize: 30, BudgetS: 150}, Thorough: tierCfg{Runs: 9600, JobSize: 40, BudgetS: 1700}}
-	for _, id := range []string{"C10", "C11", "C12", "C13", "C14", "C15", "C16", "C17", "C18", "C38"} {
+	for _, id := range []string{"C10", "C11", "C12", "C13", "C14", "C15", "C16", "C17", "C18"} {
 		props[id] = &propCfg{Engine: "nodesim", Test: "Test" + id, Level: "exploration", Overlay: "pin", Quick: q, Thorough: th}
 	}
 }
@@ -30,5 +30,11 @@ func init() {
 func init() {
 	// C23: sequential mode + scheduled concurrent mode (instrumented build)
 	props["C23"] = &propCfg{Engine: "nodesim", Test: "TestC23", Level: "exploration", Overlay: "simrt",
+		Quick: tierCfg{Runs: 1600, JobSize: 100, BudgetS: 150}, Thorough: tierCfg{Runs: 64000, JobSize: 200, BudgetS: 1500}}
+}
+
+func init() {
+	// C38 runs on a build whose block gas limit is a few transactions' worth (see smallBlockGas in pin.go)
+	props["C38"] = &propCfg{Engine: "nodesim", Test: "TestC38", Level: "exploration", Overlay: "pin-smallgas",
 		Quick: tierCfg{Runs: 1600, JobSize: 100, BudgetS: 150}, Thorough: tierCfg{Runs: 64000, JobSize: 200, BudgetS: 1500}}
 }
